@@ -241,4 +241,29 @@ theorem unavailable_directive_variable_kept :
     ruleRT 5 0 none ⟨[⟨some "A", [.field none "a" { skip := some (.var "v") } [fld "c"]]⟩], []⟩
       [[⟨"v", .boolean, true, none⟩]] [("v", .bool true)] = .ok [] := by decide
 
+/-! ### cyclic documents (hunt finding C19/1) -/
+
+def cycSelf : Doc := ⟨[anon [.spread "A" {}]], [⟨"A", [fld "s", .spread "A" {}]⟩]⟩
+def cycIndirect : Doc := ⟨[anon [.spread "A" {}]], [⟨"A", [fld "s", .spread "B" {}]⟩, ⟨"B", [.spread "A" {}]⟩]⟩
+def cycField : Doc := ⟨[anon [.spread "A" {}]], [⟨"A", [fld "a" [.spread "A" {}]]⟩]⟩
+/-- the cycle is there but the operation does not select it (`@skip(if: true)`) -/
+def cycSkipped : Doc :=
+  ⟨[anon [fld "a" [fld "c"], .spread "A" { skip := some (.lit true) }]], [⟨"A", [fld "a" [.spread "A" {}]]⟩]⟩
+
+/-- before C19-Q2.patch the traversal has no end on these documents: whatever the fuel (here the generous
+    `budget`), it is used up — Python: `RecursionError` out of the rule -/
+theorem cyclic_unrepaired_raises :
+    ruleRT cycSelf.budget 3 none cycSelf [[]] [] = .error .recursion ∧
+    ruleRT cycIndirect.budget 3 none cycIndirect [[]] [] = .error .recursion ∧
+    ruleRT cycField.budget 3 none cycField [[]] [] = .error .recursion := by decide
+
+/-- after it: the operation is reported as unbounded, at every limit; a cycle that is not selected does not matter -/
+theorem cyclic_repaired_reports :
+    ruleB 3 none cycSelf [[]] [] = .ok [(0, none)] ∧
+    ruleB 3 none cycIndirect [[]] [] = .ok [(0, none)] ∧
+    ruleB 3 none cycField [[]] [] = .ok [(0, none)] ∧
+    ruleB 1000000 none cycField [[]] [] = .ok [(0, none)] ∧
+    ruleB 0 none cycSkipped [[]] [] = .ok [(0, some 1)] ∧
+    ruleB 1 none cycSkipped [[]] [] = .ok [] := by decide
+
 end PyGql.Props.C19
